@@ -103,8 +103,21 @@ func (a *Agent) Start(p pool.Pool) error {
 		a.mu.Unlock()
 		return ErrAlreadyStarted
 	}
+	a.started = true
 	a.mu.Unlock()
 
+	if err := a.start(p); err != nil {
+		// Nothing is running, so it can be started again.
+		a.mu.Lock()
+		a.started = false
+		a.mu.Unlock()
+		return err
+	}
+	return nil
+}
+
+// start is Start without the bookkeeping of the started flag.
+func (a *Agent) start(p pool.Pool) error {
 	startCtx, cancel := context.WithTimeout(context.Background(), startTimeout)
 	defer cancel()
 
@@ -142,7 +155,13 @@ func (a *Agent) Start(p pool.Pool) error {
 	}
 
 	go func() {
-		a.waitCh <- a.serveUpdates(p)
+		err := a.serveUpdates(p)
+		// The update loop is over (stopped or failed), the agent can be
+		// started again.
+		a.mu.Lock()
+		a.started = false
+		a.mu.Unlock()
+		a.waitCh <- err
 	}()
 	return nil
 }
